@@ -30,9 +30,15 @@ pub broadcast axiom fn axiom_vec_u8_partial_cmp(a: &Vec<u8>, b: &Vec<u8>)
 pub broadcast axiom fn axiom_vec_u8_eq(a: &Vec<u8>, b: &Vec<u8>)
     ensures #[trigger] PartialEqSpec::eq_spec(a, b) == (a@ == b@);
 
+// (`slice != vec`, std's `impl PartialEq<Vec<U>> for [T]`)
+pub axiom fn axiom_slice_vec_u8_obeys_eq()
+    ensures <[u8] as PartialEqSpec<Vec<u8>>>::obeys_eq_spec();
+pub broadcast axiom fn axiom_slice_vec_u8_eq(a: &[u8], b: &Vec<u8>)
+    ensures #[trigger] PartialEqSpec::eq_spec(a, b) == (a@ == b@);
+
 pub broadcast group group_bytes_order {
     axiom_slice_u8_cmp, axiom_slice_u8_partial_cmp, axiom_slice_u8_eq,
-    axiom_vec_u8_cmp, axiom_vec_u8_partial_cmp, axiom_vec_u8_eq,
+    axiom_vec_u8_cmp, axiom_vec_u8_partial_cmp, axiom_vec_u8_eq, axiom_slice_vec_u8_eq,
 }
 
 pub assume_specification [ Ordering::is_eq ] (o: Ordering) -> (r: bool)
